@@ -164,3 +164,32 @@ def replay_callable(ctx, path):
 
 
 F['C19'] = dict(custom=run_callable, custom_replay=replay_callable)
+
+
+# ---------------------------------------------------------------------------------------------------------------------
+# generic enumeration check: the harness executes every scenario of a finite family with the real code and writes one
+# line per scenario; TLC checks each line against the specification's Expected operator (TVBAD lines = disagreements)
+def run_enum(driver, spec, classify):
+    def run(ctx):
+        build_harness(ctx)
+        out, st = run_harness(ctx, driver, 'enum', tier=ctx.tier, seed=ctx.seed)
+        trace = f'{out}/trace.ndjson'
+        n, bad = tv_cases(ctx, spec, trace, 'tv_cases')
+        ctx.evaluations += n
+        ctx.traces_ok += n - len(bad)
+        ctx.distinct_nontrivial += n
+        lines = open(trace).read().splitlines()
+        ctx.samples += [json.loads(lines[i]) for i in (0, len(lines) // 3, 2 * len(lines) // 3) if i < len(lines)]
+        ctx.conf.append(dict(mode='enumeration', cases=n, disagreeing=len(bad), exhaustive=(ctx.tier == 'thorough')))
+        classes = {}
+        for b in bad:
+            e = json.loads(lines[b - 1])
+            classes.setdefault(classify(e), []).append(e)
+        for sig, es in classes.items():
+            report(ctx, sig, f'{len(es)} enumerated scenario(s) where the real code disagrees with {spec}; first: {json.dumps(es[0])[:400]}',
+                   {'cases.ndjson': '\n'.join(json.dumps(e) for e in es[:200]) + '\n', 'exec.json': dict(driver=driver, spec=spec)})
+    return run
+
+
+F['C18'] = dict(custom=run_enum('retry', 'RetryTV', lambda e: f'{e.get("ev")}:{e.get("ckind", "")}:{"panic" if e.get("panic") else "mismatch"}'),
+                custom_replay=lambda ctx, path: run_enum('retry', 'RetryTV', lambda e: 'x')(ctx))
